@@ -25,6 +25,8 @@ func init() {
 		Run: runC08,
 	})
 	addMutants("C08",
+		mutant{"transport EOF converted on the way up", "codec.go",
+			"\t\t_, err = c.src.ReadFrom(c.stream)\n\t\tif err != nil {\n\t\t\treturn c.emptyDec, err\n", "\t\t_, err = c.src.ReadFrom(c.stream)\n\t\tif err != nil {\n\t\t\treturn c.emptyDec, errors.Join(err)\n", "C08-R5"},
 		mutant{"peer's reply to our close is not recorded", "codec/websocket/stream.go",
 			"\t\tcase StateClosedByUs:\n\t\t\t// we received a reply from the peer\n\t\t\ts.state = StateCloseAcked", "\t\tcase StateClosedByUs:\n\t\t\t// we received a reply from the peer", "C08-R1"},
 		mutant{"second close frame after a local close", "codec/websocket/stream.go",
